@@ -45,8 +45,8 @@ def from_message(message):
         '#GETTING_DATA': DATA
     }
     try:
-        message = str(message)
+        return errdict.get(str(message), ERROR)
     except Exception:
-        # an exception whose __str__ itself raises must not escape Parser.parse
+        # an exception whose __str__ itself raises, or hands back a str subclass
+        # that cannot be hashed or compared, must not escape Parser.parse
         return ERROR
-    return errdict.get(message, ERROR)
